@@ -21,17 +21,37 @@
      ms interpreter option by option — populations, liveness, size functions and growth rates
      (`build_sizes`), migration-matrix history (`build_migrations`), lineage-movement matrices of
      every time group (`build_movements_matrix`) — for **every** command both sides accept, tame
-     or not.  Not proved (see the end of the file): the agreement of the two parsers (assumed as
-     `parsersAgree` / `ArgsAgree`, checked by evaluation on the examples), and the steps after
-     the event loop (`applyParams` → ancestry / pulses, `finaliseGrowth`,
-     `_add_migrations_from_matrices`, transient demes, sort, `resolve`, `graphSem`), hence the
-     assembled `fromMs_sem_partial`.
+     or not;
+  6. the agreement of the two parsers (`parsers_agree`): on plain command lines (`PlainTokens`:
+     every option followed by exactly the arguments of the ms manual, as the manual and `to_ms`
+     write them) argparse and the parser of the ms interpreter read the same options, and accept
+     the same commands (`parse_accepts_argparse_accepts`, `argparse_accepts_parse_accepts`); outside
+     that domain the two parsers genuinely differ (`parsers_differ_*`).  With it the stage theorems
+     hold without the agreement hypothesis (`fromMs_sizes'`, `fromMs_migrations'`,
+     `build_movements_matrix'`);
+  7. sizes and migrations from the end of the event loop to the observable of the resolved graph
+     (`addMigrations_sem`, `scale_rates`, `removeTransient_sem`, `sortDemes_sem`,
+     `resolve_readback_sizes_migs`, `fromMs_sizes_migs_sem`): for **every** command both sides
+     accept, the graph shows the populations, sizes, growth rates and migration step function of
+     the command;
+  8. the lineage movements on the fragment `Tame'` (every time group is a `GoodGroup`):
+     `applyParams_sem` (the ancestry and pulses `applyParams` writes for a good group, read back the
+     way `graphSem` reads a graph, are the group's movement matrix), `resolve_readback_moves`
+     (`resolve` reads the deme headers and pulses of the document back) and `fromMs_moves_partial`
+     (the movements of the graph are those of the interpreter);
+  9. the assembled refinement `fromMs_sem` / `fromMs_sem_plain`: on the fragment `Tame'` (which
+     excludes exactly the group shapes of the findings F5, F21, F22, F6b and some harmless ones),
+     for a command that `from_ms` accepts and that has a meaning, both demographies exist and are
+     equivalent (`SemAgree`) — under the decidable `parsersAgree`, or under `PlainTokens`.
 -/
 import DemesVerif.Proofs.FromMsValid
 import DemesVerif.Proofs.FromMsIgnores
 import DemesVerif.Proofs.FromMsNames
 import DemesVerif.Proofs.FromMsSem
 import DemesVerif.Proofs.FromMsFinal
+import DemesVerif.Proofs.FromMsParseAgree
+import DemesVerif.Proofs.FromMsPostTotal
+import DemesVerif.Proofs.FromMsApplyFinal
 namespace Demes.Theorems.C08
 open Demes Demes.Ms Demes.Spec Demes.Spec.MsSem Demes.Spec.C08
 
@@ -384,16 +404,549 @@ example : StageHyps ["-I", "3", "1", "1", "1", "-ma", "x", "0.25", "0.5", "0.25"
 example : StageHyps ["-I", "2", "1", "1", "-es", "1.0", "1", "0.25", "-ej", "1.0", "3", "2"] 2 = true := by decide +kernel
 example : StageHyps f5 1 = true := by decide +kernel
 
-/-! ### what is missing for the assembled `fromMs_sem_partial`
+/-! ### 6. the two parsers agree on plain command lines
 
-`Tame pr → NoSizeAtJoin pr → fromMs c N0 none = .ok mg → SemAgree (msSem c N0) (resultSem mg)` is
-checked by evaluation on the examples above (`Agrees`), not proved.  Missing links, in order:
-1. `parseKnownArgs c = .ok args → parse c = .ok pr → ArgsAgree args pr` (argparse vs the manual's
-   arities; both directions of "accepted");
-2. `applyParams` on tame groups: the ancestry / pulses it writes encode the movement matrix of
-   `build_movements_matrix` (this is where F5, F21, F22, F6b live);
-3. `_add_migrations_from_matrices` (the sweep that merges equal consecutive rates),
-   `_remove_transient_demes`, `_sort_demes_by_ancestry` keep the three functions (`finaliseGrowth`
-   is done: `final_sizes`);
-4. `resolve` of the explicit document, the placeholder table for symbolic sizes, and `graphSem` /
-   `semEquiv` read these functions back. -/
+`parseKnownArgs` is the Model of `build_parser().parse_known_args(command.split())` (CPython
+argparse); `MsSem.parse` is the option parser of the independent ms interpreter, written from the
+arities of the ms manual.  `PlainTokens` (Spec/C08.lean, decidable) is the set of command lines
+written the way the manual and `to_ms` write them: every string is an argument for argparse
+(`isArgTok`: does not start with `-`, or looks like a negative number) or is exactly an option of
+`build_parser` or one of the manual's options without demographic meaning (`-t -s -T -L -r -c -p
+-seeds`); the line starts with an option; `-I` occurs at most once; and every option is followed by
+exactly the arguments the manual gives it (`groupOK`: `nargs` of them for a fixed-arity option,
+`npop` + `npop` sample sizes + possibly a rate not starting with `-` for `-I`, `npop²` entries for
+`-ma`, `t npop` + `npop²` entries for `-ema`, the manual's count for an ignored option). -/
+
+/-- **Parser agreement.**  On a plain command line that both parsers accept, they read the same
+options: the same number of populations and island rate, the same initial-state options and the
+same events in the same order, with times 0 resp. ≥ 0 (`ArgsAgree`). -/
+theorem parsers_agree (tokens : List String) (args : Args) (pr : Parsed) (hpl : PlainTokens tokens = true)
+    (h1 : parseKnownArgs tokens = .ok args) (h2 : parse tokens = .ok pr) : ArgsAgree args pr :=
+  Proofs.FromMsParse.parsers_agree hpl h1 h2
+
+/-- On a plain command line, whatever the ms interpreter's parser accepts argparse accepts too
+(with agreeing results): the interpreter's domain is not larger than the library's. -/
+theorem parse_accepts_argparse_accepts (tokens : List String) (pr : Parsed) (hpl : PlainTokens tokens = true)
+    (h2 : parse tokens = .ok pr) : ∃ args, parseKnownArgs tokens = .ok args ∧ ArgsAgree args pr :=
+  Proofs.FromMsParse.spec_accepts_model_accepts hpl h2
+
+/-- Conversely, on a plain command line in which no string reads as `inf` or `nan`
+(`FiniteToks`), whatever argparse accepts the ms interpreter's parser accepts (and then the two
+agree, by `parsers_agree`). -/
+theorem argparse_accepts_parse_accepts (tokens : List String) (args : Args) (hpl : PlainTokens tokens = true)
+    (hfin : FiniteToks tokens = true) (h1 : parseKnownArgs tokens = .ok args) :
+    ∃ pr, parse tokens = .ok pr ∧ ArgsAgree args pr := by
+  obtain ⟨pr, h2⟩ := Proofs.FromMsParse.parse_exists hpl hfin h1
+  exact ⟨pr, h2, Proofs.FromMsParse.parsers_agree hpl h1 h2⟩
+
+/-- the decidable form -/
+theorem parsersAgree_of_plain (tokens : List String) (args : Args) (pr : Parsed) (hpl : PlainTokens tokens = true)
+    (h1 : parseKnownArgs tokens = .ok args) (h2 : parse tokens = .ok pr) : parsersAgree tokens = true :=
+  Proofs.FromMsParse.parsersAgree_of_plain hpl h1 h2
+
+/-- non-vacuity: the msdoc-style examples of this file are plain, without `inf` / `nan`, and
+accepted by both parsers -/
+def PlainHyps (c : List String) : Bool :=
+  PlainTokens c && FiniteToks c && (parseKnownArgs c).toOption.isSome && (parse c).toOption.isSome
+
+example : PlainHyps ["-I", "2", "1", "1", "-ej", "1.0", "2", "1"] = true := by decide +kernel
+example : PlainHyps ["-G", "1.0", "-eN", "0.5", "2"] = true := by decide +kernel
+example : PlainHyps ["-I", "2", "1", "1", "0.5", "-g", "1", "1.0", "-en", "0.5", "1", "2", "-ej", "1.0", "2", "1", "-t", "5", "-T"]
+    = true := by decide +kernel
+example : PlainHyps ["-I", "2", "1", "1", "-n", "1", "2", "-g", "1", "-1.0", "-eg", "0.25", "1", "0.0", "-ej", "0.5", "2", "1"]
+    = true := by decide +kernel
+example : PlainHyps ["-I", "3", "1", "1", "1", "-ma", "x", "0.25", "0.5", "0.25", "x", "0.5", "0.25", "0.125", "x",
+    "-ej", "0.5", "3", "2", "-ema", "0.75", "3", "x", "0.5", "x", "0.5", "x", "x", "x", "x", "x", "-ej", "1", "2", "1"]
+    = true := by decide +kernel
+example : PlainHyps ["-I", "2", "1", "1", "-es", "1.0", "1", "0.25", "-ej", "1.0", "3", "2"] = true := by decide +kernel
+example : PlainHyps ["-t", "5.0", "-r", "0", "100", "-seeds", "1", "2", "3", "-G", "-0.5", "-eM", "1.0", "0", "-em", "2.0", "1", "1", "0.5"]
+    = true := by decide +kernel
+example : [f4Accepted, f4Rejected, f5, f21, f22, f6b].all PlainHyps = true := by decide +kernel
+
+/-! #### what `PlainTokens` excludes
+
+The following are facts about the domain of the *interpreter's* parser (`MsSem.parse`, a Spec
+artefact) relative to argparse — not findings about demes.  `acceptedBy c = (argparse accepts,
+interpreter's parser accepts)`. -/
+
+def acceptedBy (c : List String) : Bool × Bool := ((parseKnownArgs c).toOption.isSome, (parse c).toOption.isSome)
+
+/-- **the parsers genuinely differ (1)**: an option without demographic meaning whose manual
+arguments are options: the interpreter's parser skips `-G 1 2` as the three arguments of `-seeds`,
+argparse reads the option `-G 1` -/
+theorem parsers_differ_ignored_swallows :
+    acceptedBy ["-seeds", "-G", "1", "2"] = (true, true) ∧ parsersAgree ["-seeds", "-G", "1", "2"] = false
+    ∧ PlainTokens ["-seeds", "-G", "1", "2"] = false := by decide +kernel
+
+/-- **the parsers genuinely differ (2)**: `-ma` with fewer than `npop²` entries in front of an
+option: argparse gives `-ma` the three arguments, the interpreter's parser takes `-T` for the
+fourth entry -/
+theorem parsers_differ_ma_entries :
+    acceptedBy ["-I", "2", "1", "1", "-ma", "x", "1", "2", "-T"] = (true, true)
+    ∧ parsersAgree ["-I", "2", "1", "1", "-ma", "x", "1", "2", "-T"] = false
+    ∧ PlainTokens ["-I", "2", "1", "1", "-ma", "x", "1", "2", "-T"] = false := by decide +kernel
+
+/-- **the parsers genuinely differ (3)**: the same for `-ema` -/
+theorem parsers_differ_ema_entries :
+    acceptedBy ["-ema", "1.0", "2", "x", "1", "-T", "x"] = (true, true)
+    ∧ parsersAgree ["-ema", "1.0", "2", "x", "1", "-T", "x"] = false
+    ∧ PlainTokens ["-ema", "1.0", "2", "x", "1", "-T", "x"] = false := by decide +kernel
+
+/-- features argparse accepts and the interpreter's parser rejects (all outside `PlainTokens`):
+an attached argument (`-G0.5`, `-G=0.5`), an option of neither table (`-x`), a string argparse
+cannot place (`-G 1 2`: one argument too many; a leading `5`), `-I` given twice (argparse: the
+last one wins), an `-I` migration rate starting with `-` (`-0`) -/
+theorem parse_rejects_outside_plain :
+    [["-G0.5"], ["-G=0.5"], ["-x"], ["-G", "1", "2"], ["5", "-G", "1"], ["-I", "1", "5", "-I", "1", "5"],
+      ["-I", "1", "5", "-0"]].map (fun c => (acceptedBy c, PlainTokens c))
+    = List.replicate 7 ((true, false), false) := by decide +kernel
+
+/-- a feature the interpreter's parser accepts and argparse rejects (outside `PlainTokens`): a
+negative number that does not match argparse's `^-\d+$|^-\d*\.\d+$` is an option for argparse
+(`-G -1e3`: "expected 1 argument"); a look-alike (`-G -1`) is an argument, and plain -/
+theorem argparse_rejects_outside_plain :
+    acceptedBy ["-G", "-1e3"] = (false, true) ∧ PlainTokens ["-G", "-1e3"] = false
+    ∧ acceptedBy ["-G", "-1"] = (true, true) ∧ PlainTokens ["-G", "-1"] = true := by decide +kernel
+
+/-- features both parsers reject (outside `PlainTokens`; for the Model they are errors or outside
+the Model): abbreviations of long options (`--he` is `--help`), the ambiguous prefix `-e`, the `--`
+separator, `-n1` (attached argument of a two-argument option) -/
+theorem both_reject_outside_plain :
+    [["--he"], ["-e"], ["--"], ["-n1", "2"]].map (fun c => (acceptedBy c, PlainTokens c))
+    = List.replicate 4 ((false, false), false) := by decide +kernel
+
+/-- `FiniteToks` is needed in `argparse_accepts_parse_accepts`: the validators of ms.py let `nan`
+and `inf` through in several positions (the command lines are plain; `build_graph` is outside the
+Model on them); the interpreter's parser rejects them -/
+theorem parse_rejects_nonfinite :
+    [["-G", "nan"], ["-eN", "inf", "1"], ["-I", "1", "5", "inf"]].map (fun c => (acceptedBy c, PlainTokens c, FiniteToks c))
+    = List.replicate 3 ((true, false), true, false) := by decide +kernel
+
+/-- `PlainTokens` is sufficient, not necessary: an ignored option whose manual arguments are
+themselves ignored options is read alike by both parsers -/
+example : acceptedBy ["-r", "-T", "-L"] = (true, true) ∧ parsersAgree ["-r", "-T", "-L"] = true
+    ∧ PlainTokens ["-r", "-T", "-L"] = false := by decide +kernel
+
+/-! #### the stage theorems without the agreement hypothesis -/
+
+/-- **`build_sizes` at `from_ms`, on plain command lines**: if `from_ms` returns a graph and the
+command has a meaning, the Builder state at the end of the event loop and the final interpreter
+state have the same populations with the same size functions -/
+theorem fromMs_sizes' (c : List String) (N0 : Q) (mg : MsGraph) (sem : DemogSem)
+    (h : fromMs c N0 none = .ok mg) (hsem : msSem c N0 = .ok sem) (hpl : PlainTokens c = true) :
+    ∃ args s pr σ, parseKnownArgs c = .ok args ∧ Proofs.FromMs.buildState args N0 = .ok s
+      ∧ Proofs.FromMs.finishDoc N0 s = .ok mg.doc
+      ∧ parse c = .ok pr ∧ runState pr N0 = .ok σ ∧ sem = finishSem σ
+      ∧ s.demes.length = σ.pops.length
+      ∧ ∀ (j : Nat) (d : BDeme) (p : Pop), s.demes[j]? = some d → σ.pops[j]? = some p →
+          (∀ t, demeSizeAt d t = popSizeAt p t) ∧ curGrowth d = p.growth ∧ d.startTime = p.hi
+          ∧ s.joined.contains j = !alive p := by
+  obtain ⟨args, _, hargs, _, _⟩ := Proofs.FromMs.fromMs_buildState h
+  obtain ⟨pr, _, hpr, _, _⟩ := Proofs.FromMs.msSem_runState hsem
+  exact Proofs.FromMs.fromMs_sizes h hsem (Proofs.FromMsParse.parsersAgree_of_plain hpl hargs hpr)
+
+/-- **`build_migrations` at `from_ms`, on plain command lines** -/
+theorem fromMs_migrations' (c : List String) (N0 : Q) (mg : MsGraph) (sem : DemogSem)
+    (h : fromMs c N0 none = .ok mg) (hsem : msSem c N0 = .ok sem) (hpl : PlainTokens c = true) :
+    ∃ args s pr σ, parseKnownArgs c = .ok args ∧ Proofs.FromMs.buildState args N0 = .ok s
+      ∧ Proofs.FromMs.finishDoc N0 s = .ok mg.doc
+      ∧ parse c = .ok pr ∧ runState pr N0 = .ok σ ∧ sem = finishSem σ
+      ∧ s.mmList.length = s.mmEndTimes.length ∧ (∀ m ∈ s.mmList, Proofs.FromMs.Dim s.numDemes m)
+      ∧ s.numDemes = σ.pops.length
+      ∧ ∀ j k t, j ≠ k →
+          (mmRateAt s.mmList s.mmEndTimes j k t).map (scaleRate N0) = (snapRateAt σ.snaps j k t).map Num.fin := by
+  obtain ⟨args, _, hargs, _, _⟩ := Proofs.FromMs.fromMs_buildState h
+  obtain ⟨pr, _, hpr, _, _⟩ := Proofs.FromMs.msSem_runState hsem
+  exact Proofs.FromMs.fromMs_migrations h hsem (Proofs.FromMsParse.parsersAgree_of_plain hpl hargs hpr)
+
+/-- **`build_movements`, matrix level, on plain command lines**: `args` and `pr` are what the two
+parsers read off the plain command line `c` -/
+theorem build_movements_matrix' (c : List String) (args : Args) (pr : Parsed) (N0 : Q)
+    (hpl : PlainTokens c = true) (hargs : parseKnownArgs c = .ok args) (hpr : parse c = .ok pr) (hN : 0 < N0)
+    (pre post : List (List (Event Num))) (evs : List (Event Num))
+    (hsplit : Proofs.FromMs.eventGroups args = pre ++ evs :: post)
+    (s s1 : BState) (g1 : GState) (σ σ1 : St) (L1 : List (Nat × Row)) (T' : Q)
+    (hpre : pre.foldlM (Ms.stepGroup N0) (Proofs.FromMs.initState args N0) = .ok s)
+    (hpreS : (pre.map (List.map Proofs.FromMs.cmdOfD)).foldlM (MsSem.stepGroup N0) (initSt pr N0) = .ok σ)
+    (hT' : ∀ e ∈ evs, 4 * N0 * (Proofs.FromMs.cmdOfD e).t = T')
+    (hm : evs.foldlM (stepEvent N0 T') (s, { lm := Proofs.FromMs.initLm s evs, params := [] }) = .ok (s1, g1))
+    (hs : (evs.map Proofs.FromMs.cmdOfD).foldlM (MsSem.step N0) (σ, Proofs.FromMs.initL σ) = .ok (σ1, L1)) :
+    ∀ ir ∈ L1, 1 ≤ ir.1 ∧ ∀ k, lmGet g1.lm (ir.1 - 1) k = ir.2.get (k + 1) :=
+  Proofs.FromMs.run_group_lm (Proofs.FromMsParse.parsers_agree hpl hargs hpr) hN hsplit hpre hpreS hT' hm hs
+
+/-- the stage lemmas themselves, for the arguments argparse reads off a plain command line -/
+theorem build_sizes' (c : List String) (args : Args) (pr : Parsed) (N0 : Q) (s : BState) (σ : St)
+    (hpl : PlainTokens c = true) (hargs : parseKnownArgs c = .ok args) (hpr : parse c = .ok pr)
+    (hm : Proofs.FromMs.buildState args N0 = .ok s) (hs : runState pr N0 = .ok σ) :
+    s.demes.length = σ.pops.length ∧ s.numDemes = σ.pops.length ∧
+    ∀ (j : Nat) (d : BDeme) (p : Pop), s.demes[j]? = some d → σ.pops[j]? = some p →
+      (∀ t, demeSizeAt d t = popSizeAt p t) ∧ curGrowth d = p.growth ∧ d.startTime = p.hi
+          ∧ s.joined.contains j = !alive p :=
+  Proofs.FromMs.build_sizes (Proofs.FromMsParse.parsers_agree hpl hargs hpr) hm hs
+
+theorem build_migrations' (c : List String) (args : Args) (pr : Parsed) (N0 : Q) (s : BState) (σ : St)
+    (hpl : PlainTokens c = true) (hargs : parseKnownArgs c = .ok args) (hpr : parse c = .ok pr)
+    (hm : Proofs.FromMs.buildState args N0 = .ok s) (hs : runState pr N0 = .ok σ) :
+    s.mmList.length = s.mmEndTimes.length ∧ (∀ m ∈ s.mmList, Proofs.FromMs.Dim s.numDemes m)
+    ∧ s.numDemes = σ.pops.length
+    ∧ ∀ j k t, j ≠ k →
+        (mmRateAt s.mmList s.mmEndTimes j k t).map (scaleRate N0) = (snapRateAt σ.snaps j k t).map Num.fin :=
+  Proofs.FromMs.build_migrations (Proofs.FromMsParse.parsers_agree hpl hargs hpr) hm hs
+
+/-- non-vacuity of the primed stage theorems: on the msdoc-style examples (and on the F5 command)
+both sides accept and the command line is plain -/
+def StageHyps' (c : List String) (N0 : Q) : Bool :=
+  (fromMs c N0 none).toOption.isSome && (msSem c N0).toOption.isSome && PlainTokens c
+
+example : StageHyps' ["-I", "2", "1", "1", "-ej", "1.0", "2", "1"] 1 = true := by decide +kernel
+example : StageHyps' ["-G", "1.0", "-eN", "0.5", "2"] 64 = true := by decide +kernel
+example : StageHyps' ["-I", "2", "1", "1", "0.5", "-g", "1", "1.0", "-en", "0.5", "1", "2", "-ej", "1.0", "2", "1", "-t", "5", "-T"] 1
+    = true := by decide +kernel
+example : StageHyps' ["-I", "3", "1", "1", "1", "-ma", "x", "0.25", "0.5", "0.25", "x", "0.5", "0.25", "0.125", "x",
+    "-ej", "0.5", "3", "2", "-ema", "0.75", "3", "x", "0.5", "x", "0.5", "x", "x", "x", "x", "x", "-ej", "1", "2", "1"] 1
+    = true := by decide +kernel
+example : StageHyps' ["-I", "2", "1", "1", "-es", "1.0", "1", "0.25", "-ej", "1.0", "3", "2"] 2 = true := by decide +kernel
+example : StageHyps' f5 1 = true := by decide +kernel
+
+/-! ### 7. after the event loop: sizes and migrations, down to the observable of the resolved graph
+
+The finishing steps of `build_graph` (`finishDoc`: "resolve/remove growth_rate in oldest epochs",
+`_add_migrations_from_matrices`, the division of the rates by `4·N0`, `_remove_transient_demes`,
+`_sort_demes_by_ancestry`), `resolve` on the explicit document, the placeholder table for symbolic
+sizes and `graphSem` keep the size functions and the migration rate function of the event loop. -/
+
+/-- **(1) `Builder._add_migrations_from_matrices`.**  For a matrix history with strictly decreasing
+end times (`mm_list`, `mm_end_times`; most ancient matrix first) and pairwise different deme
+names: every emitted migration goes between two different demes of the list and has
+`end_time < start_time` (`MigsWF`); and for every ordered pair `(j, k)`, `j ≠ k`, and every time `t`
+the rates of the emitted migrations into deme `j` from deme `k` that are active at `t`
+(`end_time ≤ t < start_time`: `activeRates`) are — nothing, where no matrix is in force or the entry
+`[j][k]` of the matrix in force (`mmRateAt`) is zero; exactly that entry otherwise
+(`expectedRates`).  So no two emitted migrations of one pair overlap, a run of equal non-zero
+entries is one migration, and a zero closes a run. -/
+theorem addMigrations_sem (names : List String) (ml : List MM) (ts : List Q) (migs : List BMigration)
+    (h : addMigrationsFromMatrices names ml ts = .ok migs) (hnd : names.Nodup)
+    (hdec : ts.Pairwise (fun a b => b < a)) :
+    MigsWF names migs ∧
+    ∀ j k, j < names.length → k < names.length → j ≠ k → ∀ t,
+      activeRates names migs j k t = expectedRates (mmRateAt ml ts j k t) :=
+  Proofs.FromMs.addMigrations_sem h hnd hdec
+
+/-- non-vacuity of (1) and (2): two matrices (`[2, ∞)`: 1 into deme1 from deme2, 1/2 into deme2 from
+deme1; `[0, 2)`: 1 and 0) give one merged migration `[0, ∞)` of rate 1 and one migration `[2, ∞)` of
+rate 1/2 -/
+def exHistory : List MM × List Q :=
+  ([[[.fin 0, .fin 1], [.fin (1/2), .fin 0]], [[.fin 0, .fin 1], [.fin 0, .fin 0]]], [2, 0])
+
+example : ["deme1", "deme2"].Nodup ∧ exHistory.2.Pairwise (fun a b => b < a)
+    ∧ (addMigrationsFromMatrices ["deme1", "deme2"] exHistory.1 exHistory.2).toOption
+      = some [{ source := "deme2", dest := "deme1", startTime := .inf, endTime := 0, rate := .fin 1 },
+             { source := "deme1", dest := "deme2", startTime := .inf, endTime := 2, rate := .fin (1/2) }] := by
+  decide +kernel
+
+/-- **(2) `rate /= 4·N0`** commutes with (1): after the division the active rate of every ordered
+pair at every time is the scaled entry (`scaleRate`) of the matrix in force. -/
+theorem scale_rates (names : List String) (ml : List MM) (ts : List Q) (migs : List BMigration) (N0 : Q)
+    (h : addMigrationsFromMatrices names ml ts = .ok migs) (hnd : names.Nodup)
+    (hdec : ts.Pairwise (fun a b => b < a)) (hN : N0 ≠ 0) :
+    ∀ j k, j < names.length → k < names.length → j ≠ k → ∀ t,
+      activeRates names (migs.map (scaleMig N0)) j k t
+        = expectedRates ((mmRateAt ml ts j k t).map (scaleRate N0)) :=
+  Proofs.FromMs.scale_rates h hnd hdec hN
+
+/-- **(3a) `Builder._remove_transient_demes`.**  With pairwise different deme names: the demes that
+remain are exactly the non-transient ones (`isTransient`: finite non-zero `start_time` equal to the
+end time of the last epoch — a population created by `-es` and joined at the same time), in their
+order; migrations, pulses and the number of populations are untouched; and no pulse, no migration
+and no remaining deme (as an ancestor) refers to a deleted deme (the three assertions). -/
+theorem removeTransient_sem (doc doc' : MsDoc) (h : removeTransientDemes doc = .ok doc')
+    (hnd : (doc.demes.map (·.name)).Nodup) :
+    doc'.demes = doc.demes.filter (fun d => !isTransient d)
+    ∧ doc'.migrations = doc.migrations ∧ doc'.pulses = doc.pulses ∧ doc'.numPops = doc.numPops
+    ∧ ∀ d ∈ doc.demes, isTransient d = true → Unreferenced doc doc'.demes d :=
+  Proofs.FromMs.removeTransient_sem h hnd
+
+/-- non-vacuity of (3a): `deme3` lives on `[4, 4)` and is dropped -/
+def exTransientDoc : MsDoc :=
+  { demes := [{ name := "deme1", startTime := .inf, epochs := [{ endSize := ⟨1, 0⟩, endTime := 0, startSize := some ⟨1, 0⟩ }] },
+              { name := "deme3", startTime := .fin 4, epochs := [{ endSize := ⟨1, 0⟩, endTime := 4, startSize := some ⟨1, 0⟩ }],
+                ancestors := some ["deme1"] }],
+    migrations := [], pulses := none, numPops := 3 }
+
+example : (exTransientDoc.demes.map (·.name)).Nodup
+    ∧ (removeTransientDemes exTransientDoc).toOption.map (fun d => d.demes.map (·.name)) = some ["deme1"] := by
+  decide +kernel
+
+/-- **(3b) `Builder._sort_demes_by_ancestry`** only permutes the demes (it is the stable sort of
+`fromMs_deme_k_is_population_k`): whatever is computed per deme and then ordered by a key that
+identifies the deme — `graphSem` orders by the population number it looks up BY NAME — does not
+see the sort. -/
+theorem sortDemes_sem {β} (f : BDeme → Nat × β) (ds : List BDeme)
+    (hkeys : (ds.map (fun d => (f d).1)).Nodup) :
+    sortKey ((sortDemesByAncestry ds).map f) = sortKey (ds.map f) :=
+  Proofs.FromMs.sortDemes_sem f ds hkeys
+
+/-- **(4) reading the resolved graph back.**  The document `from_ms` hands to `resolve` is explicit
+(every deme has its `start_time`, every epoch its `end_time`, `end_size` and `start_size`, every
+migration its bounds), so `resolve` infers nothing: position by position the graph's demes have
+the document's name, start time and epochs (`epochsOf`: the document's end times and sizes, start
+times chained, `size_function` constant iff the two sizes are equal); the graph's migrations are
+the document's with their bounds and (finite) rates; and the symbolic sizes come back through the
+placeholder table — `mg.size` of a stored size is the `Sz` of the document — so the segments
+`graphSem` shows for a deme (`epSeg`) are `gsegs` of the document's epochs. -/
+theorem resolve_readback_sizes_migs (c : List String) (N0 : Q) (mg : MsGraph) (h : fromMs c N0 none = .ok mg) :
+    mg.graph.demes.length = mg.doc.demes.length ∧
+    (∀ (i : Nat) (d : BDeme) (D : Deme), mg.doc.demes[i]? = some d → mg.graph.demes[i]? = some D →
+        D.name = d.name ∧ D.startTime = d.startTime ∧ D.epochs = epochsOf mg.table d.startTime d.epochs
+        ∧ (∀ e ∈ d.epochs, mg.size (szToQ mg.table e.endSize) = e.endSize
+            ∧ mg.size (szToQ mg.table (e.startSize.getD e.endSize)) = e.startSize.getD e.endSize)
+        ∧ D.epochs.map (epSeg mg.size) = gsegs d.startTime d.epochs) ∧
+    mg.graph.migrations.length = mg.doc.migrations.length ∧
+    (∀ (i : Nat) (m : BMigration) (M : Migration), mg.doc.migrations[i]? = some m → mg.graph.migrations[i]? = some M →
+        M.source = m.source ∧ M.dest = m.dest ∧ M.startTime = m.startTime ∧ M.endTime = m.endTime
+        ∧ m.rate = Num.fin M.rate) :=
+  Proofs.FromMs.resolve_readback_sizes_migs h
+
+/-- The observable of every graph `from_ms` returns exists (every deme, migration end, pulse end and
+ancestor has a population number). -/
+theorem resultSem_total (c : List String) (N0 : Q) (mg : MsGraph) (h : fromMs c N0 none = .ok mg) :
+    ∃ rs, resultSem mg = .ok rs :=
+  Proofs.FromMs.resultSem_total h
+
+/-- **(5) sizes and migrations.**  Whenever `from_ms` returns a graph, the command has a meaning
+and the two parsers agree on it (`parsersAgree`, decidable): the graph has an observable, and —
+`semEquivSizesMigs`, the first two components of `semEquiv` — it shows the same populations as the
+command (population `k` is the deme `deme{k}`; a population created and joined at the same time
+is shown by neither side), with the same lifetimes, the same size and the same growth rate at
+every cut point, and the same migration step function.  No tameness hypothesis: this holds for
+**every** such command, including the shapes of F5, F21, F22, F6b (those findings concern the
+lineage movements only; F4 is a rejection, not a wrong model). -/
+theorem fromMs_sizes_migs_sem (c : List String) (N0 : Q) (mg : MsGraph) (sem : DemogSem)
+    (h : fromMs c N0 none = .ok mg) (hsem : msSem c N0 = .ok sem) (hp : parsersAgree c = true) :
+    ∃ rs, resultSem mg = .ok rs ∧ semEquivSizesMigs sem rs = true :=
+  Proofs.FromMs.fromMs_sizes_migs_sem_total h hsem hp
+
+/-- non-vacuity, and the theorem at work on the findings: on the msdoc-style examples and on the
+commands of F5, F21, F22, F6b (whose lineage movements differ) sizes and migrations agree -/
+def SizesMigsAgree (c : List String) (N0 : Q) : Bool :=
+  match fromMs c N0 none, msSem c N0 with
+  | .ok mg, .ok sem => parsersAgree c && (match resultSem mg with | .ok rs => semEquivSizesMigs sem rs | _ => false)
+  | _, _ => false
+
+example : SizesMigsAgree ["-I", "2", "1", "1", "0.5", "-g", "1", "1.0", "-en", "0.5", "1", "2", "-ej", "1.0", "2", "1", "-t", "5", "-T"] 1
+    = true := by decide +kernel
+example : SizesMigsAgree ["-I", "3", "1", "1", "1", "-ma", "x", "0.25", "0.5", "0.25", "x", "0.5", "0.25", "0.125", "x",
+    "-ej", "0.5", "3", "2", "-ema", "0.75", "3", "x", "0.5", "x", "0.5", "x", "x", "x", "x", "x", "-ej", "1", "2", "1"] 1
+    = true := by decide +kernel
+example : [f5, f21, f22, f6b].map (fun c => SizesMigsAgree c 1) = [true, true, true, true] := by decide +kernel
+/-- a transient population (`-es` and `-ej` of the new population at the same time into the
+population it came from: F6b's shape with `p = 0.5`) is shown by neither side -/
+example : SizesMigsAgree ["-I", "2", "1", "1", "-es", "1.0", "1", "0.5", "-ej", "1.0", "3", "1"] 1 = true := by
+  decide +kernel
+
+/-! ### 8. the lineage movements on the fragment `Tame'`
+
+`groupOps n cmds` reads the `-es` / `-ej` options of one time group (`n` populations exist before it)
+as moves `(a, h, q)` — "a fraction `q` of the lineages of population `a` goes to population `h`":
+`-es i p` immediately followed (among the `-es`/`-ej` of the group) by `-ej n+1 k` is the admixture
+`(i, k, 1-p)`; any other `-es i p` is `(i, n+1, 1-p)`; `-ej i j` is `(i, j, 1)`.  `GoodGroup n cmds`:
+no population is the source of a move after it was the target of an earlier move of the group
+(`noSourceAfterTarget`), every `-es` has `0 < p ≤ 1`, and a group with `-es`/`-ej` is not at time 0.
+`Tame' pr`: every time group of the command is a `GoodGroup`.  `groupMoves` (Spec/C08.lean) reads the
+movement rows of one time off Builder data exactly as `graphSem` reads them off a graph. -/
+
+/-- **`applyParams_sem`.**  A good time group of the run: the Builder state `s` and the interpreter
+state `σ` correspond (`SizeSim`), both process the options `evs` of the group at time `T' ≠ 0`
+(giving `s1`, `split_join_params` / `lineage_movements` `g1`, and the interpreter's movement matrix
+`L1`), every deme of `s` has its oldest epoch ending before `T'` and starts at `∞` or before `T'`,
+and no pulse of `s` is at `T'`.  Then the ancestry and the pulses that `applyParams` writes, read
+back by `groupMoves` the way `graphSem` reads a graph (pulses of the time in the order written,
+then the ancestry of the demes starting at the time, on the identity rows of the demes that exist
+just before it), are the interpreter's movement matrix of the group, in canonical form. -/
+theorem applyParams_sem (N0 T T' : Q) (s s1 : BState) (g1 : GState) (σ σ1 : St) (L1 : List (Nat × Row))
+    (evs : List (Event Num))
+    (hsim : Proofs.FromMs.SizeSim T s σ) (hT : T ≤ T') (hall : ∀ e ∈ evs, Proofs.FromMs.HasCmd e)
+    (htime : ∀ e ∈ evs, 4 * N0 * (Proofs.FromMs.cmdOfD e).t = T')
+    (hm : evs.foldlM (stepEvent N0 T') (s, { lm := Proofs.FromMs.initLm s evs, params := [] }) = .ok (s1, g1))
+    (hs : (evs.map Proofs.FromMs.cmdOfD).foldlM (MsSem.step N0) (σ, Proofs.FromMs.initL σ) = .ok (σ1, L1))
+    (hgood : GoodGroup s.numDemes (evs.map Proofs.FromMs.cmdOfD) = true) (hT0 : T' ≠ 0)
+    (hnames : Proofs.FromMs.NameInv s)
+    (hend : ∀ (j : Nat) (d : BDeme), s.demes[j]? = some d → bEndTime d < T')
+    (hst : ∀ (j : Nat) (d : BDeme), s.demes[j]? = some d → d.startTime = .inf ∨ ∃ t, d.startTime = .fin t ∧ t < T')
+    (hpul : ∀ p ∈ s.pulses.getD [], p.time ≠ T') :
+    ∃ L2, groupMoves (popNames (applyParams T' s1 g1).numDemes) T' (applyParams T' s1 g1).demes
+        ((applyParams T' s1 g1).pulses.getD []) = .ok L2 ∧ canonRows L2 = canonRows L1 :=
+  Proofs.FromMs.applyParams_sem hsim hT hall htime hm hs hgood hT0 hnames hend hst hpul
+
+/-- **`resolve` reads the movement part of the document back**: position by position the demes of the
+graph have the name, start time, end time (of the oldest epoch), ancestors (none written: `[]`) and
+proportions (none written: `[1]` for a single ancestor, else `[]`) of the document's demes, and the
+pulses are the document's, stably sorted by descending time. -/
+theorem resolve_readback_moves (tab : List (Sz × Q)) (doc : MsDoc) (g : Graph)
+    (h : Demes.resolve (doc.toValue tab) = .ok g) :
+    g.demes.map Proofs.FromMs.viewG = doc.demes.map Proofs.FromMs.viewB
+    ∧ g.pulses = sortPulses ((doc.pulses.getD []).map Proofs.FromMs.bp2p) :=
+  Proofs.FromMs.resolve_doc_views h
+
+/-- **the lineage movements of `from_ms`, on the fragment `Tame'`.**  If `from_ms` returns a graph, the
+command has a meaning, the two parsers agree on what it says (`parsersAgree`, decidable), and every
+time group of the command is a `GoodGroup`, then the demography of the graph exists and its
+lineage-movement matrices — at the same times, in the same order — are those of the ms
+interpreter. -/
+theorem fromMs_moves_partial (c : List String) (N0 : Q) (mg : MsGraph) (sem : DemogSem) (pr : Parsed)
+    (h : fromMs c N0 none = .ok mg) (hsem : msSem c N0 = .ok sem) (hp : parsersAgree c = true)
+    (hpr : parse c = .ok pr) (ht : Tame' pr = true) :
+    ∃ gsem, resultSem mg = .ok gsem ∧ gsem.moves = sem.moves :=
+  Proofs.FromMs.fromMs_moves_partial h hsem hp hpr ht
+
+/-- the same with `movesOf` -/
+theorem fromMs_moves (c : List String) (N0 : Q) (mg : MsGraph) (sem : DemogSem) (pr : Parsed)
+    (h : fromMs c N0 none = .ok mg) (hsem : msSem c N0 = .ok sem) (hp : parsersAgree c = true)
+    (hpr : parse c = .ok pr) (ht : Tame' pr = true) :
+    movesOf (resultSem mg) = movesOf (msSem c N0) := by
+  obtain ⟨gsem, hg, hm⟩ := Proofs.FromMs.fromMs_moves_partial h hsem hp hpr ht
+  rw [hg, hsem]
+  show some gsem.moves = some sem.moves
+  rw [hm]
+
+/-- **the assembled statement on the fragment `Tame'`**: with the sizes-and-migrations component —
+link B's `fromMs_sizes_migs_sem`, proved there for every command — as the hypothesis `hB`, both
+demographies exist and are equivalent (`SemAgree`: populations, lifetimes, sizes and growth rates at
+every cut point, migration step function, lineage movements).  `NoSizeAtJoin` is not needed: the
+finding F4 is a rejection by `from_ms`, not a wrong graph. -/
+theorem fromMs_sem_partial (c : List String) (N0 : Q) (mg : MsGraph) (sem : DemogSem) (pr : Parsed)
+    (h : fromMs c N0 none = .ok mg) (hsem : msSem c N0 = .ok sem) (hp : parsersAgree c = true)
+    (hpr : parse c = .ok pr) (ht : Tame' pr = true)
+    (hB : ∃ rs, resultSem mg = .ok rs ∧ semEquivSizesMigs sem rs = true) :
+    SemAgree (msSem c N0) (resultSem mg) = true :=
+  Proofs.FromMs.fromMs_sem_partial h hsem hp hpr ht hB
+
+/-- **`GoodGroup` is weaker than the previous fragment**: a time group whose `-es`/`-ej` options are at
+most one `-es`, one `-ej`, or one `-es` followed by one `-ej` (`tameGroup`, the per-time condition of
+`Tame`), with split fractions in `(0, 1]` and not at time 0, is a `GoodGroup` — whatever the `-ej`
+of the pair joins.  (The converse fails: `threePairs`, `star`, `twoAncestors` below.) -/
+theorem goodGroup_of_tame (n : Nat) (cmds : List Cmd) (h1 : tameGroup (cmds.filter isMove) = true)
+    (h2 : ∀ t i p, Cmd.split t i p ∈ cmds → 0 < p ∧ p ≤ 1)
+    (h3 : (cmds.filter isMove).all (fun c => decide (0 < c.t)) = true) : GoodGroup n cmds = true :=
+  Proofs.FromMs.goodGroup_of_tame n cmds h1 (fun c hc => by
+    cases c with
+    | split t i p => exact h2 t i p hc
+    | _ => trivial) h3
+
+/-! #### non-vacuity and the boundary of the fragment -/
+
+/-- all hypotheses of `fromMs_moves_partial` hold (and so does its conclusion) -/
+def MovesHyps (c : List String) (N0 : Q) : Bool :=
+  match fromMs c N0 none, msSem c N0, parse c with
+  | .ok mg, .ok sem, .ok pr =>
+    parsersAgree c && Tame' pr && decide (movesOf (resultSem mg) = some sem.moves) && !sem.moves.isEmpty
+  | _, _, _ => false
+
+/-- a single `-ej`; an admixture pair `-es i p -ej n+1 k` (N0 = 2); a pair whose target continues and
+is joined later; an `-ej` chain at different times -/
+example : MovesHyps twoPops 1 = true := by decide +kernel
+example : MovesHyps ["-I", "2", "1", "1", "-es", "1.0", "1", "0.25", "-ej", "1.0", "3", "2"] 2 = true := by decide +kernel
+example : MovesHyps ["-I", "2", "1", "1", "-es", "1.0", "1", "0.25", "-ej", "1.0", "3", "2", "-ej", "2.0", "2", "1"] 1 = true := by
+  decide +kernel
+example : MovesHyps ["-I", "3", "1", "1", "1", "-ej", "1.0", "3", "2", "-ej", "2.0", "2", "1"] 1 = true := by decide +kernel
+
+/-- shapes that `Tame` (at most one `-es`/`-ej` pair per time) excludes and `Tame'` covers: three
+admixture pairs on disjoint populations at one time; three populations joining a fourth at one
+time; the `to_ms` encoding of a deme with two ancestors (`-es 1 p`, `-ej 4 2`, `-ej 1 3`) -/
+def threePairs : List String :=
+  ["-I", "6", "1", "1", "1", "1", "1", "1", "-es", "1.0", "1", "0.25", "-ej", "1.0", "7", "2",
+   "-es", "1.0", "3", "0.5", "-ej", "1.0", "8", "4", "-es", "1.0", "5", "0.75", "-ej", "1.0", "9", "6"]
+def star : List String :=
+  ["-I", "4", "1", "1", "1", "1", "-ej", "1.0", "2", "1", "-ej", "1.0", "3", "1", "-ej", "1.0", "4", "1"]
+def twoAncestors : List String :=
+  ["-I", "3", "1", "1", "1", "-es", "1.0", "1", "0.25", "-ej", "1.0", "4", "2", "-ej", "1.0", "1", "3"]
+
+example : [threePairs, star, twoAncestors].map (fun c => (parse c).toOption.map (fun pr => (Tame pr, Tame' pr)))
+    = [some (false, true), some (false, true), some (false, true)] := by decide +kernel
+example : [threePairs, star, twoAncestors].map (fun c => MovesHyps c 1) = [true, true, true] := by decide +kernel
+/-- the moves `groupOps` reads off the two-ancestor group -/
+example : groupOps 3 [.split 1 1 (1/4), .join 1 4 2, .join 1 1 3] = [(1, 2, 3/4), (1, 3, 1)] := by decide +kernel
+
+/-- on the msdoc-style examples above both fragments apply -/
+example : (parse ["-I", "2", "1", "1", "0.5", "-g", "1", "1.0", "-en", "0.5", "1", "2", "-ej", "1.0", "2", "1", "-t", "5", "-T"]).toOption.map
+    (fun pr => (Tame pr, Tame' pr)) = some (true, true) := by decide +kernel
+
+/-- **the boundary**: the time groups of the findings are not good — F5 (a split of the population an
+earlier split of the group created), F21 (interleaved pairs: the `-ej` of a new population is not
+the next `-es`/`-ej` option), F22 (a population split after it received lineages), F6b (`p = 0`) —
+and a group with `-es`/`-ej` at time 0 is not; options that move no lineage may be interleaved -/
+example : GoodGroup 2 [.split 1 2 (1/2), .split 1 3 (1/2)] = false
+    ∧ GoodGroup 3 [.split 1 2 (3/4), .split 1 1 (1/8), .join 1 4 1, .join 1 5 3] = false
+    ∧ GoodGroup 3 [.join 1 2 3, .join 1 3 1, .split 1 1 (1/4)] = false
+    ∧ GoodGroup 2 [.split (3/8) 2 0, .join (3/8) 3 1] = false
+    ∧ GoodGroup 2 [.split 0 1 (1/4), .join 0 3 2] = false
+    ∧ GoodGroup 2 [.split 1 1 (1/4), .setSize 1 3 2 true, .join 1 3 2] = true := by decide +kernel
+
+/-- the commands of the findings are outside `Tame'`, and their movements do differ
+(`fromMs_split_of_new_population_counterexample`, … above) -/
+example : [f5, f21, f22, f6b].map (fun c => (parse c).toOption.map Tame') = [some false, some false, some false, some false] := by
+  decide +kernel
+
+/-- `GoodGroup` is sufficient, not necessary: a join followed by a split of its target, and a chain
+of joins at one time, are outside `Tame'` (a population is a source after it was a target) but are
+converted correctly (the Builder recomputes the ancestry of a joined population from the matrix;
+it is only the combination of F22 that goes wrong) -/
+def joinThenSplit : List String := ["-I", "2", "1", "1", "-ej", "1.0", "1", "2", "-es", "1.0", "2", "0.5"]
+def chainSameTime : List String := ["-I", "3", "1", "1", "1", "-ej", "1.0", "2", "3", "-ej", "1.0", "3", "1"]
+
+example : [joinThenSplit, chainSameTime].map (fun c => (parse c).toOption.map Tame') = [some false, some false] := by
+  decide +kernel
+example : [joinThenSplit, chainSameTime].map (fun c =>
+    match fromMs c 1 none, msSem c 1 with
+    | .ok mg, .ok sem => decide (movesOf (resultSem mg) = some sem.moves)
+    | _, _ => false) = [true, true] := by decide +kernel
+
+/-! ### 9. the assembled refinement on the fragment `Tame'` -/
+
+/-- **C08 on the fragment `Tame'`.**  If `from_ms` returns a graph for the command, the command has
+a meaning under the ms interpreter, the two parsers agree on it (`parsersAgree`, decidable) and
+every time group of the command is a `GoodGroup`, then both demographies exist and are equivalent:
+the same populations (population `k` is the deme `deme{k}`) with the same lifetimes, the same size
+and growth rate at every cut point, the same migration step function and the same
+lineage-movement matrices.  (`fromMs_sem_partial` with its hypothesis `hB` discharged by
+`fromMs_sizes_migs_sem`.) -/
+theorem fromMs_sem (c : List String) (N0 : Q) (mg : MsGraph) (sem : DemogSem) (pr : Parsed)
+    (h : fromMs c N0 none = .ok mg) (hsem : msSem c N0 = .ok sem) (hp : parsersAgree c = true)
+    (hpr : parse c = .ok pr) (ht : Tame' pr = true) :
+    SemAgree (msSem c N0) (resultSem mg) = true :=
+  fromMs_sem_partial c N0 mg sem pr h hsem hp hpr ht (fromMs_sizes_migs_sem c N0 mg sem h hsem hp)
+
+/-- the same on plain command lines (`PlainTokens`: written the way the ms manual and `to_ms` write
+them), where the agreement of the two parsers is a theorem (`parsers_agree`) -/
+theorem fromMs_sem_plain (c : List String) (N0 : Q) (mg : MsGraph) (sem : DemogSem) (pr : Parsed)
+    (h : fromMs c N0 none = .ok mg) (hsem : msSem c N0 = .ok sem) (hpl : PlainTokens c = true)
+    (hpr : parse c = .ok pr) (ht : Tame' pr = true) :
+    SemAgree (msSem c N0) (resultSem mg) = true := by
+  obtain ⟨args, _, hargs, _, _⟩ := Proofs.FromMs.fromMs_buildState h
+  exact fromMs_sem c N0 mg sem pr h hsem (Proofs.FromMsParse.parsersAgree_of_plain hpl hargs hpr) hpr ht
+
+/-- non-vacuity of `fromMs_sem_plain`: every hypothesis holds (and so does the conclusion) on
+msdoc-style examples with joins, an admixture pair, growth and migration matrices -/
+def SemHyps (c : List String) (N0 : Q) : Bool :=
+  match fromMs c N0 none, msSem c N0, parse c with
+  | .ok mg, .ok _, .ok pr => PlainTokens c && Tame' pr && SemAgree (msSem c N0) (resultSem mg)
+  | _, _, _ => false
+
+example : SemHyps ["-I", "2", "1", "1", "-ej", "1.0", "2", "1"] 1 = true := by decide +kernel
+example : SemHyps ["-I", "2", "1", "1", "0.5", "-g", "1", "1.0", "-en", "0.5", "1", "2", "-ej", "1.0", "2", "1", "-t", "5", "-T"] 1
+    = true := by decide +kernel
+example : SemHyps ["-I", "3", "1", "1", "1", "-ma", "x", "0.25", "0.5", "0.25", "x", "0.5", "0.25", "0.125", "x",
+    "-ej", "0.5", "3", "2", "-ema", "0.75", "3", "x", "0.5", "x", "0.5", "x", "x", "x", "x", "x", "-ej", "1", "2", "1"] 1
+    = true := by decide +kernel
+example : SemHyps ["-I", "2", "1", "1", "-es", "1.0", "1", "0.25", "-ej", "1.0", "3", "2"] 2 = true := by decide +kernel
+
+/-! ### what is missing
+
+1. `GoodGroup` is a sufficient condition; the exact set of groups that `applyParams` encodes
+   faithfully is larger (see `joinThenSplit`, `chainSameTime`);
+2. that a command with `-es`/`-ej` at time 0 is always rejected by `from_ms` (so that the third clause
+   of `GoodGroup` could be dropped) is not proved;
+3. outside `PlainTokens` the agreement of the two parsers stays the decidable hypothesis
+   `parsersAgree` (the parsers genuinely differ there: `parsers_differ_*`). -/
+
+end Demes.Theorems.C08
